@@ -124,6 +124,7 @@ pub fn run(tier: Tier) -> i32 {
     let (kf, kc, kdeep) = tier.pick((2usize, 4usize, 0usize), (3, 5, 6));
     let rmax = tier.pick(60usize, 300usize);
     let (kh, kt) = tier.pick((3usize, 4usize), (4, 5));
+    let kbig = tier.pick(5usize, 6usize);
     let mut total = Acc::new();
     let mut sizes = vec![];
     for l in langs::ALL {
@@ -175,6 +176,66 @@ pub fn run(tier: Tier) -> i32 {
             let toks = stream::htoks_of_text(&syms.join(" "), &lang);
             one_token_list(&ctx, acc, l, &lang, &toks)
         }));
+        // big numbers: nine, tens, hundred, one and every scale word of the vocabulary (cardinal and ordinal), so that
+        // numerals of 17 and more digits — beyond what a float can hold exactly — are reached
+        let mut big: Vec<String> = vec![c.unit2.clone(), c.tens.clone(), c.hundred.clone(), c.one.clone(), c.thousand.clone(), c.million.clone(), c.milliard.clone()];
+        if l == L::It {
+            big.extend(["mila", "milioni", "bilione", "bilioni"].iter().map(|x| x.to_string()));
+        }
+        if l == L::Pt {
+            big.extend(["milionésimo", "bilionésimo", "bilionésima"].iter().map(|x| x.to_string()));
+        }
+        // one representative per (value, cardinal/ordinal) among the vocabulary's scale words
+        let mut seen_keys: Vec<(String, bool)> = vec![];
+        for w in vocab::number_words(l) {
+            if let Ok(Ok(d)) = guard(|| text2num::text2digits(&w, &lang)) {
+                let digits: String = d.chars().take_while(|c| c.is_ascii_digit()).collect();
+                let key = (digits.clone(), d.len() > digits.len());
+                if digits.len() >= 4 && digits.starts_with('1') && digits[1..].bytes().all(|b| b == b'0') && !seen_keys.contains(&key) {
+                    seen_keys.push(key);
+                    if !big.contains(&w) {
+                        big.push(w);
+                    }
+                }
+            }
+        }
+        sizes.push(json!({"lang": l.code(), "big_number_alphabet": big}));
+        big.push(c.small_ord.clone());
+        big.push(c.large_ord.clone());
+        let (nine, third) = (c.unit2.clone(), c.small_ord.clone());
+        total.merge(explore::all_sequences2(&big, kbig, |syms, acc| {
+            if syms.len() >= 3 {
+                let toks: Vec<HTok> = syms.iter().enumerate().map(|(i, w)| HTok::new(i, w)).collect();
+                one_token_list(&ctx, acc, l, &lang, &toks);
+                // exact digits: when the stream is one number and so is the stream without its last word, a final
+                // 'nine' / 'third' that lands in a free units position changes that digit and nothing else
+                let last = *syms.last().unwrap();
+                let d_last = if last == nine { Some('9') } else if last == third { Some('3') } else { None };
+                if let Some(dl) = d_last {
+                    if let Ok((s_occ, a_occ)) = guard(|| (stream::find(&toks, &lang, 0.0), stream::find(&toks[..toks.len() - 1], &lang, 0.0))) {
+                        if s_occ.len() == 1 && a_occ.len() == 1 && s_occ[0].start == 0 && s_occ[0].end == toks.len() && a_occ[0].start == 0 && a_occ[0].end == toks.len() - 1 {
+                            let digits = |t: &str| -> String { t.chars().take_while(|c| c.is_ascii_digit()).collect() };
+                            let (da, ds) = (digits(&a_occ[0].text), digits(&s_occ[0].text));
+                            if da.ends_with('0') && da.len() == ds.len() && !a_occ[0].text.contains(l.mark()) {
+                                acc.traces += 1;
+                                let want = format!("{}{dl}", &da[..da.len() - 1]);
+                                if ds != want {
+                                    ctx.report(acc, Violation {
+                                        lang: l.code().into(),
+                                        entry: "find_tokens".into(),
+                                        input: serde_json::to_string(&syms).unwrap(),
+                                        threshold: Some(0.0),
+                                        clause: "exact digits are kept even when the value exceeds float precision".into(),
+                                        expected: format!("digits {want} (those of the stream without its last word, {da}, with the units digit set)"),
+                                        observed: s_occ[0].show(),
+                                    });
+                                }
+                            }
+                        }
+                    }
+                }
+            }
+        }));
         // long streams: every pattern of <= 2 class symbols repeated r times, every r up to the bound
         total.merge(explore::all_repetitions(&cls, 2, 2..=rmax, |syms, acc| one_stream(&ctx, acc, l, &lang, syms, false)));
         total.sample(json!({"lang": l.code(), "stream": cls.iter().take(4).collect::<Vec<_>>()}));
@@ -182,7 +243,7 @@ pub fn run(tier: Tier) -> i32 {
     let cov = json!({
         "exhaustive": true,
         "rule": "every token stream of length <= k over the alphabet, through find_numbers and find_numbers_iter, at every threshold of T; every reported occurrence is checked; non-trivial = streams with at least one occurrence at threshold 0",
-        "bounds": {"sigma_full_depth": kf, "sigma_cls_depth": kc, "core10_depth": kdeep, "hinted_streams": {"words": 10, "decorations": 3, "depth": kh}, "annotated_texts": {"words": "10 class words + the language's ambiguous words", "depth": kt}, "long_streams": {"pattern_depth": 2, "repetitions_up_to": rmax}, "case_renderings_on_cls": ["lower", "UPPER", "Title"]},
+        "bounds": {"sigma_full_depth": kf, "sigma_cls_depth": kc, "core10_depth": kdeep, "big_number_depth": kbig, "hinted_streams": {"words": 10, "decorations": 3, "depth": kh}, "annotated_texts": {"words": "10 class words + the language's ambiguous words", "depth": kt}, "long_streams": {"pattern_depth": 2, "repetitions_up_to": rmax}, "case_renderings_on_cls": ["lower", "UPPER", "Title"]},
         "thresholds": T.iter().map(|t| thr_name(*t)).collect::<Vec<_>>(),
         "alphabets": sizes,
     });
